@@ -13,7 +13,8 @@ from ..runner import Collector, Outcome, hyp_run, hyp_shrink
 ID = "C07"
 LEVEL = "exploration"
 RULE = (
-    "case = (request helper or send_message, integer error code, error shape: message text or absent, data absent or any JSON); "
+    "case = (request helper or send_message, integer error code, error shape: message text or absent, data absent or any JSON, delivered as the unified or the typed error class, "
+    "alone or with a concurrent request on the same connection that dequeues the error first); "
     "codes enumerated exhaustively over -33100..-31900 and -200..200 for every discovered helper, plus Hypothesis-drawn signed/unsigned "
     "64-bit codes and error shapes; oracle = pinned documented permanent-code set; non-trivial = code is not one of the named constants, "
     "or data present, or message absent; distinct = distinct (helper, code, shape)"
@@ -71,12 +72,37 @@ def check(case: Dict[str, Any]) -> Outcome:
         async def call(r, w):
             return await fn(r, w, timeout=2.0, **kwargs)
 
+    peer = bool(case.get("peer"))
+    if peer:
+        # a second request is in flight on the same connection and is the longer-waiting receiver when the
+        # error arrives (t=0.52: the target re-queued at its 0.5 s poll), so it dequeues the target's error
+        inner = call
+
+        async def call(r, w):  # type: ignore[no-redef]
+            import asyncio as _a
+
+            async def other():
+                await _a.sleep(0.05)
+                try:
+                    await send_message(r, w, "peer/req", None, timeout=1.5, message_id="peer-1")
+                except BaseException:  # noqa
+                    pass
+
+            t_ = _a.ensure_future(other())
+            try:
+                return await inner(r, w)
+            finally:
+                t_.cancel()
+
+    t_err = 0.52 if peer else 0.1
     if msg is None:
         # direct construction (the parser rejects an error without message): the code's own fallback path
         item: Any = {"$direct": err, "id": "$ID"}
     else:
         item = {"jsonrpc": "2.0", "id": "$ID", "error": err}
-    res = drive(call, [(0.1, item)])
+        if case.get("typed"):
+            item["$form"] = "typed"
+    res = drive(call, [(t_err, item)])
 
     out.nontrivial = (code not in NAMED) or has_data or msg is None
     out.key = {"target": target, "code": code, "message": msg, "data": case.get("data", "$absent")}
@@ -86,7 +112,7 @@ def check(case: Dict[str, Any]) -> Outcome:
         "data" if has_data else "nodata",
         "nomessage" if msg is None else "message",
         "bool-helper" if target in BOOL_HELPERS else "raising-helper",
-    )
+    ) + (("typed-class",) if case.get("typed") and msg is not None else ()) + (("peer-waiter",) if peer else ())
 
     r = is_retryable_error(code)
     if not isinstance(r, bool):
@@ -94,7 +120,12 @@ def check(case: Dict[str, Any]) -> Outcome:
     elif r != (code not in PERMANENT):
         out.fail("classification-differs-from-documented-set", f"code={code} is_retryable_error={r}")
 
+    if peer and res.outcome == "raise" and isinstance(res.exc, TimeoutError):
+        out.fail("error-response-lost-to-a-concurrent-request", f"{target} code={code} typed={bool(case.get('typed'))}: TimeoutError at t={res.t_end}")
+        return out
     if target in BOOL_HELPERS:
+        if peer and res.t_end > 1.9:
+            out.fail("error-response-lost-to-a-concurrent-request", f"{target} code={code}: returned {res.value!r} only at t={res.t_end}")
         if not (res.outcome == "return" and res.value is False):
             out.fail("bool-helper-error-not-false", f"{target}: outcome={res.outcome} value={res.value!r} exc={res.exc!r}")
         return out
@@ -115,7 +146,7 @@ def check(case: Dict[str, Any]) -> Outcome:
         out.fail("wrong-error-class", f"{target} code={code}: raised {type(exc).__name__}, documented {want_cls.__name__}")
     if msg is not None and msg not in str(exc):
         out.fail("server-message-lost", f"{target} code={code}: message {msg!r} not in {str(exc)!r}")
-    if abs(res.t_end - 0.1) > 1e-6:
+    if not peer and abs(res.t_end - 0.1) > 1e-6:
         out.fail("error-not-raised-on-arrival", f"t_end={res.t_end}")
     return out
 
@@ -158,10 +189,14 @@ def job_enum(col: Collector, seed: int, tier: str, shard: int, nshards: int) -> 
             for sh in shapes:
                 case = {"target": target, "code": code, **sh}
                 col.record(case, check(case))
+            if code in NAMED:
+                for typed_, peer_ in ((True, False), (False, True), (True, True)):
+                    case = {"target": target, "code": code, "message": f"m{code}", "typed": typed_, "peer": peer_}
+                    col.record(case, check(case))
     if shard == 0:
         case = {"static": True}
         col.record(case, check(case))
-        col.exhaustive_parts.append(f"codes -33100..-31900 and -200..200 ({len(RANGES)}) x {len(targets)} targets, shape 'message only'; named codes and every 7th code additionally with data and with message absent")
+        col.exhaustive_parts.append(f"codes -33100..-31900 and -200..200 ({len(RANGES)}) x {len(targets)} targets, shape 'message only'; named codes and every 7th code additionally with data and with message absent; named codes additionally as the typed error class and/or with a concurrent request that dequeues the error first")
         col.extra["targets"] = targets
 
 
@@ -178,6 +213,10 @@ def cases(draw):
     case["message"] = m
     if draw(st.booleans()):
         case["data"] = draw(json_values(6))
+    if draw(st.integers(0, 2)) == 0:
+        case["typed"] = True
+    if draw(st.integers(0, 3)) == 0:
+        case["peer"] = True
     return case
 
 
